@@ -27,6 +27,9 @@ def run(ctx):
         n = dlrules.digest_compares(ck, prog, config, 'C08-a')
         ck.min_instances('digest comparisons', n, 5)
         dlrules.copy_guard(ck, prog, config, 'C08-b')
+        # ---- h  the copy keeps nothing in static storage: the bytes hashed are the bytes written (not another copy's)
+        from . import c19 as _c19
+        _c19.shared_scratch(ck, prog, config, 'C08-h', ('zck_copy_chunks',), 'chunk copy')
         dlrules.match_guard(ck, prog, config, 'C08-c')
         n = dlrules.source_untouched(ck, prog, config, 'C08-d')
         ck.min_instances('write sites in dl.c', n, 4)
